@@ -227,8 +227,9 @@ Theorem passthrough_reducer_record (l : list R) : l <> [] ->
 Proof.
   intros Hne. apply (record_of_closed (cls_pass RN)); [reflexivity| |exact Hne].
   intros m Hm. cbn [kdecay cls_pass].
-  pose proof (passthrough_id m) as H. cbn [cls_pass kfold] in *. rewrite H.
-  destruct m as [|x m] using rev_ind; [congruence|]. rewrite rev_app_distr, last_last. reflexivity.
+  transitivity (match rev m with [] => None | x :: _ => Some x end).
+  - rewrite <- (passthrough_id m). apply fold_left_ext. intros s x. reflexivity.
+  - destruct m as [|x m _] using rev_ind; [congruence|]. rewrite rev_app_distr, last_last. reflexivity.
 Qed.
 Theorem ema_reducer_record alpha (l : list R) : l <> [] ->
   let K := cls_ema RN alpha in
